@@ -543,7 +543,12 @@ func record(c *Case, results []*runResult) {
 	if m.lookupImp > 0 {
 		lbls = append(lbls, "case:host-lookup-of-reference-made-from-imported-function")
 	}
-	lbls = append(lbls, fmt.Sprintf("case:live-instances=%d", len(m.order)))
+	live := len(m.order)
+	if live > 5 {
+		live = 5
+	}
+	lbls = append(lbls, fmt.Sprintf("case:live-instances=%d%s", live, map[bool]string{true: "+"}[live == 5]))
+	lbls = append(lbls, fmt.Sprintf("case:script-steps=%d0s", len(c.Script)/10))
 	evid.Case(c.key(), nontrivial, lbls...)
 	if nontrivial && evid.WantSample("graph", 3) {
 		evid.Sample("graph", 3, c)
